@@ -2,7 +2,7 @@ SPEC = dict(
     id="C17",
     bin="c17",
     coq_dir="C17",
-    coq_targets=["C17/Proofs.vo", "C17/Closure.vo", "C17/Idempotent.vo", "C17/IndexMap.vo", "C17/Examples.vo"],
+    coq_targets=["C17/Proofs.vo", "C17/Closure.vo", "C17/Idempotent.vo", "C17/IndexMap.vo", "C17/Gvar.vo", "C17/Examples.vo"],
     allowed_axioms=[],
     level_text=("Unbounded Coq theorems about an executable model of klippa's subsetting plan and per-glyph tables over an "
                 "abstract TrueType font (glyph kinds with component lists, hmtx long/short arrays, cmap pairs, UVS triples, COLR "
@@ -31,9 +31,10 @@ SPEC = dict(
               "klippa/src/hmtx.rs: subset (bounds check, long/short placement, zero fill), compute_new_num_h_metrics, get_new_gid_advance; read-fonts hmtx advance/side_bearing lookups",
               "klippa/src/maxp.rs: numGlyphs; klippa/src/glyf_loca.rs: per-glyph record (empty / simple / composite with component ids rewritten through glyph_map, .notdef outline flag, unmapped component => empty glyph, unreadable glyph => table dropped)",
               "klippa/src/hvar.rs (shared with vvar.rs): IndexMapSubsetPlan::new / remap, HvarVvarSubsetPlan::new, serialize_index_maps; klippa/src/variations.rs DeltaSetIndexMap::subset (entry format byte, width, packing) - compared byte for byte with the subset's HVAR/VVAR index maps",
+              "klippa/src/gvar.rs: the offset-format decision (size summed as the code does), GvarOffset::stored_value for both widths and the offsets array incl. RETAIN_GIDS gaps and the skipped .notdef - compared with the subset's real gvar flags word and offsets array",
               "klippa/src/cmap.rs: at the level of the (char, new gid) list and the encoding-record prerequisites; the format-4 writer (to_ranges / commit_current_range / glyphIdArray) is not modelled but its OUTPUT, read back through Cmap4 directly, is compared case by case with the predicted list"],
     not_covered=["serialize.rs packing, loca offset arithmetic, cmap4/cmap12/cmap14 byte encoders: implementation-only oracle (finds C17:cmap4-id-range-offset-shared-base, C17:glyf-short-loca-u16-offset-overflow, C17:glyf-long-loca-unpadded-glyph-data, C17:cmap12-empty-subtable-invalid-group)",
-                 "gvar / ItemVariationStore row subsetting / COLR / CPAL / layout / name / OS2 / post subsetters and hint stripping: implementation-only oracle (finds C17:hvar-dropped, C17:colr-dropped)",
+                 "gvar data copy (oracle: byte-for-byte equality per kept glyph) / ItemVariationStore row subsetting / COLR / CPAL / layout / name / OS2 / post subsetters and hint stripping: implementation-only oracle (finds C17:hvar-dropped, C17:colr-dropped)",
                  "draw_commutes (abstract recursive draw) is not proved; outline/metric equality at sizes x locations and subset-of-subset stability of the real output are tested on the implementation",
                  "model correspondence is restricted to requests whose kept glyph data is < 64 KiB (above that the loca writer defects fire) and to fonts with <= 1500 glyphs / <= 4000 cmap entries"],
     assumptions=["cmap of the font is a function (NoDup of characters) for c17_cmap_exact / c17_closure_contains_requested / c17_subset_all_identity",
